@@ -54,7 +54,12 @@ func (fc *FnCtx) Translate() (err error) {
 		fc.entry.assume(fc.wfFacts(v))
 		fc.entry.assume(fc.paramFacts(v))
 	}
-	// receiver of a pointer method is never nil when the contract says so; requires
+	// implicit precondition: a pointer receiver is non-nil (checked at every call site)
+	if fn.Signature.Recv() != nil && len(fn.Params) > 0 {
+		if _, ok := fn.Params[0].Type().Underlying().(*types.Pointer); ok {
+			fc.entry.assume(ptrNonNil(fc.vals[fn.Params[0]]))
+		}
+	}
 	env := fc.contractEnv(fc.entry, fc.entry)
 	if fc.c != nil {
 		for _, r := range fc.c.Requires {
@@ -358,7 +363,12 @@ func (fc *FnCtx) instr(b *ssa.BasicBlock, idx int, in ssa.Instruction) {
 	case *ssa.Convert:
 		fc.doConvert(x)
 	case *ssa.MakeInterface:
-		fc.setVal(x, fc.makeIface(fc.operand(x.X), x.Type()))
+		xv := fc.operand(x.X)
+		if fc.eng.isRepoPtrType(x.X.Type()) {
+			// data invariant: an interface never holds a nil pointer of an in-repo type
+			fc.oblige("nil", "iface-box", ptrNonNil(xv), x.Pos(), "nil pointer stored in an interface")
+		}
+		fc.setVal(x, fc.makeIface(xv, x.Type()))
 	case *ssa.TypeAssert:
 		fc.doTypeAssert(x)
 	case *ssa.Extract:
